@@ -3,6 +3,6 @@ CONSTANTS
   Threads = {1, 2}
   MaxT = 6
   Slice = 2
-  Deviations = {"unsync_set"}
+  Deviations = {"handler_preempts_in_monitor"}
 INVARIANTS NotCorrupt SyscallNeverPreempted BusyPreempted NoSelfDeadlock
 CHECK_DEADLOCK FALSE
